@@ -20,6 +20,7 @@ import (
 	"sort"
 	"strconv"
 	"strings"
+	"sync"
 	"testing"
 	"time"
 
@@ -88,6 +89,7 @@ func run(t *testing.T, cfg config, seq []act, keepTrace bool) (res result) {
 		res.terminal = w.led.Terminal()
 		res.empty = !res.terminal && w.empty()
 		res.viol = w.viol
+		noteObserved(w.led.Observed)
 		res.trace = w.trace
 	})
 	if br.Panic != nil {
@@ -271,12 +273,12 @@ type found struct {
 }
 
 type stats struct {
-	states, transitions, runs, terminals, rechecked int64
-	cycles, cycleIters, lassos, unclosed, maxPeriod int64
-	skipped                                         int64
-	maxDepth                                        int
-	depthDone                                       int
-	capped                                          bool
+	states, transitions, runs, terminals, rechecked                     int64
+	cycles, cycleIters, lassos, unclosed, maxPeriod, endedByObservation int64
+	skipped                                                             int64
+	maxDepth                                                            int
+	depthDone                                                           int
+	capped                                                              bool
 }
 
 type node struct {
@@ -488,9 +490,10 @@ func featureOf(cfg space, seq []act, r result) string {
 
 type ampResult struct {
 	result
-	iters  int
-	lasso  bool // the connection-level state repeated: from here on the history is periodic
-	period int
+	iters    int
+	lasso    bool // the connection-level state repeated: from here on the history is periodic
+	period   int
+	observed bool // ended in an observation outside the property statement
 }
 
 const ampMaxIter = 4400 // > inflowMinRefresh: a leak of one byte per cycle crosses the bound within this many repetitions
@@ -547,13 +550,18 @@ func amplify(t *testing.T, cfg config, cyc []act, maxIter int, keepTrace bool) (
 			}
 			seen[k] = it
 		}
-		if w.led.PeerViolated && res.harness == "" {
+		if len(w.led.Observed) > 0 {
+			res.observed = true
+			// the repetition ended in an observation the property statement does not forbid (e.g. credit returned twice):
+			// recorded by noteObserved, neither a violation nor a harness problem
+		} else if w.led.PeerViolated && res.harness == "" {
 			res.harness = fmt.Sprintf("the harness client ran out of window while repeating %v (repetition %d)", seqString(cyc), res.iters)
 		}
 		for i := range w.viol {
 			w.probeCause(&w.viol[i])
 		}
 		res.viol = w.viol
+		noteObserved(w.led.Observed)
 		res.trace = w.trace
 	})
 	if br.Panic != nil {
@@ -596,6 +604,8 @@ func ampOne(t *testing.T, rep *ev.Report, cfg space, cyc []act, founds map[strin
 			st.maxPeriod = int64(r.period)
 		}
 		rep.Note("cycle_shapes", featureOf(cfg, cyc, r.result))
+	case r.observed:
+		st.endedByObservation++ // ended in an observation outside the property statement (counted in observed_outside_statement_*)
 	default:
 		st.unclosed++
 	}
@@ -606,6 +616,13 @@ func ampOne(t *testing.T, rep *ev.Report, cfg space, cyc []act, founds map[strin
 func TestCheck(t *testing.T) {
 	rep := ev.New("C12", "model_checking")
 	defer rep.Write()
+	defer func() {
+		obsMu.Lock()
+		for k, v := range obsOutside {
+			rep.Add("observed_outside_statement_"+k, v)
+		}
+		obsMu.Unlock()
+	}()
 	// every execution builds a fresh connection: with the default pacing the collector runs almost continuously on a tiny heap
 	debug.SetGCPercent(-1)
 	debug.SetMemoryLimit(192 << 20)
@@ -717,6 +734,7 @@ func TestCheck(t *testing.T) {
 	rep.Add("cycle_repetitions", st.cycleIters)
 	rep.Add("cycles_closed_by_lasso", st.lassos)
 	rep.Add("cycles_not_closed", st.unclosed)
+	rep.Add("cycles_ended_by_observation_outside_statement", st.endedByObservation)
 	rep.SetMax("max_lasso_period", st.maxPeriod)
 	rep.Add("transitions_skipped_after_deadlock", st.skipped)
 	if st.skipped > 0 {
@@ -823,4 +841,18 @@ func replayFile(t *testing.T, rep *ev.Report, path string) {
 		founds[sigOf(v)] = found{v: v, sp: sp, seq: f.Replay.Seq, amp: f.Replay.Amplify}
 	}
 	report(t, rep, founds)
+}
+
+// observations the ledger makes that the property statement does not forbid (see ledger.OutsideStatement)
+var (
+	obsMu      sync.Mutex
+	obsOutside = map[string]int64{}
+)
+
+func noteObserved(m map[string]int) {
+	obsMu.Lock()
+	for k, v := range m {
+		obsOutside[k] += int64(v)
+	}
+	obsMu.Unlock()
 }
